@@ -15,8 +15,8 @@ In == JsonDeserialize(IOEnv.IN)
 
 ValueSets == [
     six   |-> <<None, B(FALSE), B(TRUE), I(0), I(1), I(2)>>,
-    \* for operator precedence: distinct ints, a falsy value, a string, a tuple and an object with attributes
-    mixed |-> <<None, I(1), I(2), I(3), S(<<"a", "b">>), Tup(<<S(<<"b">>), I(2)>>), Obj("R1")>>
+    \* for operator precedence: two ints, a falsy value, a string, a tuple and an object with attributes
+    mixed |-> <<None, I(1), I(2), S(<<"a", "b">>), Tup(<<S(<<"b">>), I(2)>>), Obj("R1")>>
 ]
 
 RECURSIVE PowI(_, _)
